@@ -1,27 +1,160 @@
 """C15 - every traversal visits each node or edge exactly once in its defining order."""
+from fractions import Fraction
+
+import common
 import treeutil as tu
 from common import time_limit
 
 ID = "C15"
 GEN_DEPENDS = []
-RULE = ("random rose trees (1-12 leaves quick, up to 40 thorough; unary nodes, polytomies, fixed families) x traversal kind "
-        "x start node x filter (random subset of node ids or none); thorough adds every shape <= 6 leaves x every start; "
-        "non-trivial = start node is not the seed, or a filter is given, or the kind is apply/in-order/age-order")
+RULE = ("random rose trees (1-12 leaves quick, up to 40 thorough; unary nodes, polytomies, fixed families) x entry point "
+        "(27 kinds: every *_iter / *_node_iter / *_edge_iter of Node and Tree, ancestor_iter, Tree.nodes/leaf_nodes/"
+        "internal_nodes/edges/leaf_edges/internal_edges, len, apply, iter()) x start node (Node methods on any node; Tree "
+        "methods on the tree and on a Tree made of a spliced-out inner node) x filter (none, or a random set of accepted "
+        "ids answered with bools, with truthy/falsy non-bool values, or by a callable that is itself falsy) x node class "
+        "(Node, or subclasses whose instances and edges are falsy through __bool__ or __len__); thorough adds every shape "
+        "<= 6 leaves x every start; non-trivial = start is not the seed, or a filter is given, or a falsy class is used, "
+        "or the kind is apply/in-order/age-order/ancestors; a third of the cases run one or two other traversals (drained or "
+        "abandoned part-way) on the same objects first")
 MODELLED_NOT_VERIFIED = [
     "C15: the Lean machines are hand-written from Node.preorder_iter/postorder_iter/levelorder_iter/leaf_iter/inorder_iter/"
-    "ageorder_iter/apply and Tree.preorder_edge_iter/postorder_edge_iter; tied to the code by the per-case comparison of visit sequences",
-    "C15: Python generator suspension (a tree mutated during iteration) is outside the statement; filters are sets of accepted node ids",
+    "ageorder_iter/ancestor_iter/apply and Tree.preorder_edge_iter/postorder_edge_iter and the wrappers; tied to the code "
+    "by the per-case comparison of visit sequences",
+    "C15: Node.apply and ancestor_iter climb parent pointers; the model tree has none, so applyRun/pushKids and ancPath are "
+    "functional renderings (closer lists / the path computed on the way down), not the code's control flow",
+    "C15: Python generator suspension (a tree mutated during iteration) is outside the statement; a filter is a set of "
+    "accepted node ids - what the callable returns for them (bool or any truthy/falsy object) is varied on the Python side only",
+    "C15: age order: the model sorts stably (as list.sort does); the statement asks only for monotone age, so model and "
+    "implementation are compared up to the order inside groups of equal age",
+    "C15: ids of the nodes of a protocol tree are distinct (pre-order numbers); internal_nodes_spec/tree_internal_lists_spec "
+    "take this as a hypothesis",
 ]
-EXPLANATION = ("Theorems: each machine = its defining order for every tree, start and filter (preorder_spec, postorder_spec, "
-               "levelorder_spec, leaf_spec, filtered_spec, internal_spec, edge_iter_spec, each_node_once, len_spec, apply_spec, "
-               "ageorder_perm). In-order is recursive in the code and in the model alike (no machine to refine).")
+EXPLANATION = ("Theorems, all about the definitions the driver runs: each machine = its defining order for every tree, start "
+               "and filter (preorder_spec, postorder_spec, levelorder_spec, leaf_spec, inorder_spec, filtered_spec, "
+               "edge_iter_spec + edge_order_spec, wrapped_edge_iter_spec for the level/leaf/in-order edge iterators, "
+               "each_node_once, len_spec, apply_spec, tree_lists_spec, tree_internal_lists_spec); internal_nodes_spec: "
+               "exactly the non-leaves, the start dropped iff exclusion is requested and it has no parent; ancestor_spec: "
+               "the filtered parent chain up to the root; ageorder_spec / ageorder_driver_spec: for the real comparator "
+               "Frac.lt (through Theory/FracRat.lt_iff) and the ages the driver parses, both directions, with/without "
+               "leaves, any filter: monotone in age, each passing node once, stable. internal_spec and "
+               "ageorder_sorted_stable (Int key) are kept but superseded.")
 
-KINDS = ["pre", "post", "level", "leaf", "in", "preint", "postint", "preedge", "postedge", "preintedge", "postintedge",
-         "apply", "len", "ageasc", "agedesc", "ageascint", "agedescint"]
-TREE_ONLY = {"preedge", "postedge", "preintedge", "postintedge", "len"}
+AGE = ["ageasc", "agedesc", "ageascint", "agedescint"]
+BOTH = ["pre", "post", "level", "leaf", "in", "preint", "postint", "apply"] + AGE          # Node and Tree entry points
+TREE_ONLY = ["preedge", "postedge", "preintedge", "postintedge", "leveledge", "leafedge", "inedge", "len",
+             "nodes", "leafnodes", "internalnodes", "edges", "leafedges", "internaledges"]
+NODE_ONLY = ["anc"]
+KINDS = BOTH + TREE_ONLY + NODE_ONLY
+EDGE_KINDS = {"preedge", "postedge", "preintedge", "postintedge", "leveledge", "leafedge", "inedge",
+              "edges", "leafedges", "internaledges"}
+UNFILTERED = {"apply", "len", "leafnodes", "internalnodes", "leafedges", "internaledges"}   # entry points without filter_fn
+USES_EXCL = {"preint", "postint", "preintedge", "postintedge", "internalnodes", "internaledges"}
+NODECLS = ["plain", "nobool", "nolen"]
+FSTYLES = ["bool", "mixed", "falsyfn"]
+
+TRUTHY = [True, 1, "x", [0], (None,), 2.5, {"a": 1}, -1]
+FALSY = [False, 0, None, "", [], (), 0.0, {}]
 
 
-# ---- independent oracle: the defining orders, computed by plain recursion on _child_nodes
+# ---------------------------------------------------------------- building the objects of a case
+_classes = {}
+
+
+def node_class(dendropy, name):
+    """Node, or a subclass whose instances (and whose edges) are falsy - a node class with __len__ or __bool__ is
+    perfectly legal; the iterators must not confuse such a node with 'no node' or 'rejected'"""
+    key = (id(dendropy), name)
+    if key in _classes:
+        return _classes[key]
+    Edge = dendropy.Edge
+    if name == "plain":
+        cls = dendropy.Node
+    elif name == "nobool":
+        class FalsyEdge(Edge):
+            def __bool__(self):
+                return False
+
+        class FalsyNode(dendropy.Node):
+            @classmethod
+            def edge_factory(cls, **kwargs):
+                return FalsyEdge(**kwargs)
+
+            def __bool__(self):
+                return False
+        cls = FalsyNode
+    elif name == "nolen":
+        class EmptyEdge(Edge):
+            def __len__(self):
+                return 0
+
+        class EmptyNode(dendropy.Node):
+            @classmethod
+            def edge_factory(cls, **kwargs):
+                return EmptyEdge(**kwargs)
+
+            def __len__(self):
+                return 0
+        cls = EmptyNode
+    else:
+        raise ValueError(name)
+    _classes[key] = cls
+    return cls
+
+
+class World(object):
+    """the objects of one case: nodes numbered as in the protocol tokens, their edges, the tree"""
+
+    def __init__(self, dendropy, toks, nodecls):
+        n = int(toks[0])
+        par = [int(x) for x in toks[1:1 + n]]
+        cls = node_class(dendropy, nodecls)
+        self.nodes = [cls() for _ in range(n)]
+        root = None
+        for i in range(n):
+            if par[i] < 0:
+                root = self.nodes[i]
+            else:
+                self.nodes[par[i]].add_child(self.nodes[i])
+        self.tree = dendropy.Tree(seed_node=root)
+        self.nmap = {id(nd): i for i, nd in enumerate(self.nodes)}
+        self.emap = {id(nd.edge): i for i, nd in enumerate(self.nodes)}
+        self.n = n
+
+    def nid(self, x):
+        return self.nmap.get(id(x), "?")
+
+    def eid(self, e):
+        return self.emap.get(id(e), "?")
+
+
+class FalsyFn(object):
+    """a filter predicate that is a falsy object itself (a callable with __bool__): it is still 'a filter'"""
+
+    def __init__(self, fn):
+        self.fn = fn
+
+    def __call__(self, x):
+        return self.fn(x)
+
+    def __bool__(self):
+        return False
+
+
+def make_filter(acc, fstyle, salt, key):
+    """the filter callable for a set of accepted ids. `key(obj)` -> id. None when no filter"""
+    if acc is None:
+        return None
+    if fstyle == "mixed":
+        def f(x):
+            i = key(x)
+            table = TRUTHY if i in acc else FALSY
+            return table[(i + salt) % len(table)]
+        return f
+    g = lambda x: key(x) in acc
+    return FalsyFn(g) if fstyle == "falsyfn" else g
+
+
+# ---------------------------------------------------------------- independent oracle: the defining orders, by plain recursion on _child_nodes
 def o_pre(nd):
     out = [nd]
     for c in nd._child_nodes:
@@ -45,168 +178,324 @@ def o_level(nd):
     return out
 
 
+class NotBinary(Exception):
+    pass
+
+
 def o_in(nd):
     k = len(nd._child_nodes)
     if k == 0:
         return [nd]
     if k != 2:
-        raise TypeError
+        raise NotBinary()
     return o_in(nd._child_nodes[0]) + [nd] + o_in(nd._child_nodes[1])
 
 
-def o_brackets(nd, ids):
+def o_brackets(nd, w):
     if not nd._child_nodes:
-        return ["l%d" % ids.of(nd)]
-    out = ["b%d" % ids.of(nd)]
+        return ["l%d" % w.nid(nd)]
+    out = ["b%d" % w.nid(nd)]
     for c in nd._child_nodes:
-        out.extend(o_brackets(c, ids))
-    out.append("a%d" % ids.of(nd))
+        out.extend(o_brackets(c, w))
+    out.append("a%d" % w.nid(nd))
     return out
 
 
-def oracle(kind, tree, ids, start, excl, acc, ages):
-    nd = ids.node(start)
-    keep = (lambda x: True) if acc is None else (lambda x: ids.of(x) in acc)
-    internal = lambda x: bool(x._child_nodes) and not (excl and x._parent_node is None)
-    if kind in ("pre", "preedge"):
-        return [ids.of(x) for x in o_pre(nd) if keep(x)]
+def o_path(root, target):
+    """root-to-target path found from the top through _child_nodes (never through parent pointers)"""
+    if root is target:
+        return [root]
+    for c in root._child_nodes:
+        p = o_path(c, target)
+        if p is not None:
+            return [root] + p
+    return None
+
+
+def oracle(c, w, seed):
+    """what the statement prescribes for case c; `seed` is the node the traversal starts from.
+    returns a list of ids / events, 'undefined' (in-order on a non-binary subtree), or for age kinds the list of ids that
+    must appear (each once; their order is judged by monotone_age)"""
+    kind, excl = c["kind"], c["excl"]
+    acc = None if (c["acc"] is None or kind in UNFILTERED) else set(c["acc"])
+    keep = (lambda x: True) if acc is None else (lambda x: w.nid(x) in acc)
+    is_leaf = lambda x: len(x._child_nodes) == 0
+    internal = lambda x: (not is_leaf(x)) and not (excl and x._parent_node is None)
+    I = lambda l: [w.nid(x) for x in l]
+    if kind in ("pre", "preedge", "nodes", "edges"):
+        return I(x for x in o_pre(seed) if keep(x))
     if kind in ("post", "postedge"):
-        return [ids.of(x) for x in o_post(nd) if keep(x)]
-    if kind == "level":
-        return [ids.of(x) for x in o_level(nd) if keep(x)]
-    if kind == "leaf":
-        return [ids.of(x) for x in o_pre(nd) if not x._child_nodes and keep(x)]
-    if kind == "in":
+        return I(x for x in o_post(seed) if keep(x))
+    if kind in ("level", "leveledge"):
+        return I(x for x in o_level(seed) if keep(x))
+    if kind in ("leaf", "leafedge", "leafnodes", "leafedges"):
+        return I(x for x in o_pre(seed) if is_leaf(x) and keep(x))
+    if kind in ("in", "inedge"):
         try:
-            return [ids.of(x) for x in o_in(nd) if keep(x)]
-        except TypeError:
-            return "TypeError"
-    if kind in ("preint", "preintedge"):
-        return [ids.of(x) for x in o_pre(nd) if internal(x) and keep(x)]
+            return I(x for x in o_in(seed) if keep(x))
+        except NotBinary:
+            return "undefined"
+    if kind in ("preint", "preintedge", "internalnodes", "internaledges"):
+        return I(x for x in o_pre(seed) if internal(x) and keep(x))
     if kind in ("postint", "postintedge"):
-        return [ids.of(x) for x in o_post(nd) if internal(x) and keep(x)]
+        return I(x for x in o_post(seed) if internal(x) and keep(x))
     if kind == "apply":
-        return o_brackets(nd, ids)
+        return o_brackets(seed, w)
     if kind == "len":
-        return [len([x for x in o_pre(nd) if not x._child_nodes])]
-    if kind.startswith("age"):
-        # monotone age, each node once, ties in pre-order (stable)
-        nds = o_pre(nd)
-        desc = "desc" in kind
-        order = sorted(range(len(nds)), key=lambda i: ((-ages[ids.of(nds[i])]) if desc else ages[ids.of(nds[i])], i))
-        res = [nds[i] for i in order]
-        if kind.endswith("int"):
-            res = [x for x in res if x._child_nodes]
-        return [ids.of(x) for x in res if keep(x)]
+        return [len([x for x in o_pre(seed) if is_leaf(x)])]
+    if kind == "anc":
+        path = o_path(w.tree.seed_node, seed)
+        up = list(reversed(path[:-1]))
+        return I(([seed] if (c["incl"] and keep(seed)) else []) + [x for x in up if keep(x)])
+    if kind in AGE:
+        return I(x for x in o_pre(seed) if (not kind.endswith("int") or not is_leaf(x)) and keep(x))
     raise ValueError(kind)
 
 
-def impl(kind, tree, ids, start, excl, acc, ages, via_tree):
-    nd = ids.node(start)
-    nf = None if acc is None else (lambda x: ids.of(x) in acc)
-    ef = None if acc is None else (lambda e: ids.of(e.head_node) in acc)
-    try:
-        if kind == "pre":
-            it = tree.preorder_node_iter(nf) if via_tree else nd.preorder_iter(nf)
-        elif kind == "post":
-            it = tree.postorder_node_iter(nf) if via_tree else nd.postorder_iter(nf)
-        elif kind == "level":
-            it = tree.levelorder_node_iter(nf) if via_tree else nd.levelorder_iter(nf)
-        elif kind == "leaf":
-            it = tree.leaf_node_iter(nf) if via_tree else nd.leaf_iter(nf)
-        elif kind == "in":
-            it = tree.inorder_node_iter(nf) if via_tree else nd.inorder_iter(nf)
-        elif kind == "preint":
-            it = (tree.preorder_internal_node_iter(nf, excl) if via_tree else nd.preorder_internal_node_iter(nf, excl))
-        elif kind == "postint":
-            it = (tree.postorder_internal_node_iter(nf, excl) if via_tree else nd.postorder_internal_node_iter(nf, excl))
-        elif kind == "preedge":
-            return [ids.of(e.head_node) for e in tree.preorder_edge_iter(ef)]
-        elif kind == "postedge":
-            return [ids.of(e.head_node) for e in tree.postorder_edge_iter(ef)]
-        elif kind == "preintedge":
-            return [ids.of(e.head_node) for e in tree.preorder_internal_edge_iter(ef, excl)]
-        elif kind == "postintedge":
-            return [ids.of(e.head_node) for e in tree.postorder_internal_edge_iter(ef, excl)]
-        elif kind == "apply":
-            ev = []
-            (tree if via_tree else nd).apply(before_fn=lambda x: ev.append("b%d" % ids.of(x)),
-                                            after_fn=lambda x: ev.append("a%d" % ids.of(x)),
-                                            leaf_fn=lambda x: ev.append("l%d" % ids.of(x)))
-            return ev
-        elif kind == "len":
-            return [len(tree)]
-        elif kind.startswith("age"):
-            for i in range(len(ids)):
-                ids.node(i).age = float(ages[i])
-            desc = "desc" in kind
-            incl = not kind.endswith("int")
-            it = (tree.ageorder_node_iter(include_leaves=incl, filter_fn=nf, descending=desc) if via_tree
-                  else nd.ageorder_iter(filter_fn=nf, include_leaves=incl, descending=desc))
-        else:
-            raise ValueError(kind)
-        return [ids.of(x) for x in it]
-    except TypeError:
-        if kind == "in":
-            return "TypeError"
-        raise
+def monotone_age(seq, ages, desc):
+    vals = [ages[i] for i in seq if isinstance(i, int)]
+    return all((a >= b) if desc else (a <= b) for a, b in zip(vals, vals[1:]))
+
+
+def age_canon(seq, ages):
+    """an age-ordered answer up to the order among equal ages: runs of equal age, ids sorted inside a run"""
+    out, run, cur = [], [], None
+    for i in seq:
+        a = ages[i] if isinstance(i, int) and 0 <= i < len(ages) else "?"
+        if run and a != cur:
+            out.append("%s:%s" % (cur, ",".join(str(x) for x in sorted(run, key=str))))
+            run = []
+        cur = a
+        run.append(i)
+    if run:
+        out.append("%s:%s" % (cur, ",".join(str(x) for x in sorted(run, key=str))))
+    return " ".join(out)
+
+
+# ---------------------------------------------------------------- the implementation
+def drain(it, cap):
+    out = []
+    for x in it:
+        out.append(x)
+        if len(out) > cap:
+            break
+    return out
+
+
+def impl(c, w, seed, obj, cap=None):
+    """call the entry point; obj is the Tree (via tree/subtree) or None (via node). returns list of ids/events.
+    cap: abandon the generator after cap+1 items (default: far more than the tree has nodes)"""
+    kind, excl = c["kind"], c["excl"]
+    acc = None if c["acc"] is None else set(c["acc"])
+    nf = make_filter(acc, c["fstyle"], c["fsalt"], w.nid)
+    ef = make_filter(acc, c["fstyle"], c["fsalt"], w.eid)
+    cap = 3 * w.n + 8 if cap is None else cap
+    N = lambda it: [w.nid(x) for x in drain(it, cap)]
+    E = lambda it: [w.eid(x) for x in drain(it, cap)]
+    t = obj
+    if kind == "pre":
+        if c["alt"] and acc is None:
+            return N(iter(t) if t is not None else iter(seed))
+        return N(t.preorder_node_iter(nf) if t is not None else seed.preorder_iter(nf))
+    if kind == "post":
+        return N(t.postorder_node_iter(nf) if t is not None else seed.postorder_iter(nf))
+    if kind == "level":
+        return N(t.levelorder_node_iter(nf) if t is not None else seed.levelorder_iter(nf))
+    if kind == "leaf":
+        if c["alt"] and acc is None and t is None:
+            return N(seed.leaf_nodes())
+        return N(t.leaf_node_iter(nf) if t is not None else seed.leaf_iter(nf))
+    if kind == "in":
+        return N(t.inorder_node_iter(nf) if t is not None else seed.inorder_iter(nf))
+    if kind == "preint":
+        if c["alt"]:   # keyword spelling
+            return N(t.preorder_internal_node_iter(filter_fn=nf, exclude_seed_node=excl) if t is not None
+                     else seed.preorder_internal_node_iter(filter_fn=nf, exclude_seed_node=excl))
+        return N(t.preorder_internal_node_iter(nf, excl) if t is not None else seed.preorder_internal_node_iter(nf, excl))
+    if kind == "postint":
+        return N(t.postorder_internal_node_iter(nf, excl) if t is not None else seed.postorder_internal_node_iter(nf, excl))
+    if kind == "preedge":
+        return E(t.preorder_edge_iter(ef))
+    if kind == "postedge":
+        return E(t.postorder_edge_iter(ef))
+    if kind == "preintedge":
+        return E(t.preorder_internal_edge_iter(ef, excl))
+    if kind == "postintedge":
+        return E(t.postorder_internal_edge_iter(ef, excl))
+    if kind == "leveledge":
+        return E(t.levelorder_edge_iter(ef))
+    if kind == "leafedge":
+        return E(t.leaf_edge_iter(ef))
+    if kind == "inedge":
+        return E(t.inorder_edge_iter(ef))
+    if kind == "nodes":
+        return N(t.nodes(nf) if nf is not None else t.nodes())
+    if kind == "leafnodes":
+        return N(t.leaf_nodes())
+    if kind == "internalnodes":
+        return N(t.internal_nodes(excl))
+    if kind == "edges":
+        return E(t.edges(ef) if ef is not None else t.edges())
+    if kind == "leafedges":
+        return E(t.leaf_edges())
+    if kind == "internaledges":
+        return E(t.internal_edges(excl))
+    if kind == "apply":
+        ev = []
+        (t if t is not None else seed).apply(before_fn=lambda x: ev.append("b%s" % w.nid(x)),
+                                             after_fn=lambda x: ev.append("a%s" % w.nid(x)),
+                                             leaf_fn=lambda x: ev.append("l%s" % w.nid(x)))
+        return ev
+    if kind == "len":
+        return [len(t)]
+    if kind == "anc":
+        return N(seed.ancestor_iter(nf, c["incl"]) if not c["alt"] else seed.ancestor_iter(filter_fn=nf, inclusive=c["incl"]))
+    if kind in AGE:
+        ages = [Fraction(a) for a in c["ages"]]
+        for i, nd in enumerate(w.nodes):
+            nd.age = float(ages[i])
+        desc = "desc" in kind
+        incl = not kind.endswith("int")
+        return N(t.ageorder_node_iter(include_leaves=incl, filter_fn=nf, descending=desc) if t is not None
+                 else seed.ageorder_iter(filter_fn=nf, include_leaves=incl, descending=desc))
+    raise ValueError(kind)
 
 
 def fmt(x):
     return x if isinstance(x, str) else " ".join(str(i) for i in x)
 
 
-def edge_variants(tree, ids, start, acc):
-    """levelorder/inorder/leaf edge iterators map the node iterators: checked against the oracle only"""
-    out = []
-    if start != 0:
-        return out
-    ef = None if acc is None else (lambda e: ids.of(e.head_node) in acc)
-    out.append(("leveledge", [ids.of(e.head_node) for e in tree.levelorder_edge_iter(ef)], "level"))
-    out.append(("leafedge", [ids.of(e.head_node) for e in tree.leaf_edge_iter(ef)], "leaf"))
+def normalise(c):
+    """fill the fields older replay files do not have"""
+    c = dict(c)
+    if "via" not in c:
+        c["via"] = "tree" if c.get("via_tree") else "node"
+    c.setdefault("incl", False)
+    c.setdefault("fstyle", "bool")
+    c.setdefault("fsalt", 0)
+    c.setdefault("nodecls", "plain")
+    c.setdefault("alt", False)
+    c.setdefault("prior", [])
+    return c
+
+
+def one_case(ctx, dendropy, c, pending):
+    c = normalise(c)
+    kind, start, via = c["kind"], c["start"], c["via"]
+    w = World(dendropy, c["tree"], c["nodecls"])
+    seed = w.nodes[start]
+    obj = None
+    if via == "tree":
+        if start != 0:
+            raise ValueError("via=tree needs start 0")
+        obj = w.tree
+    elif via == "subtree":
+        obj = w.tree if start == 0 else dendropy.Tree(seed_node=seed)   # splices the node out of its parent
+    ages = [Fraction(a) for a in c["ages"]]
+    want = oracle(c, w, seed)
+    want_nofilter = oracle(dict(c, acc=None), w, seed)   # only used to recognise the documented falsy-filter defect
+    where = "%s via %s from node %d (filter %s/%s, node class %s%s)" % (
+        kind, via, start, c["acc"], c["fstyle"], c["nodecls"],
+        "".join(", after %s%s" % (pk, "" if take is None else " abandoned after %d items" % (take + 1)) for pk, take in c["prior"]))
+    got, refused = None, None
     try:
-        r = [ids.of(e.head_node) for e in tree.inorder_edge_iter(ef)]
-    except TypeError:
-        r = "TypeError"
-    out.append(("inedge", r, "in"))
-    return out
+        with time_limit(10):
+            # earlier traversals of the same objects (drained, or abandoned after a few items): a traversal is a read-only
+            # walk, so what the judged traversal must yield is still the defining order of the tree as it was built
+            for pk, take in c["prior"]:
+                try:
+                    impl(dict(c, kind=pk, acc=None, alt=False), w, seed, obj, cap=take)
+                except Exception as e:
+                    if not common.is_library_exception(e):
+                        raise
+            got = impl(c, w, seed, obj)
+    except common.Timeout:
+        ctx.fail("hang", "%s: this sequence of traversals does not terminate within 10 s" % where, c)
+        return
+    except Exception as e:
+        if not common.is_library_exception(e):
+            raise
+        refused = type(e).__name__
+    filtered = c["acc"] is not None and kind not in UNFILTERED
+    nontrivial = (start != 0 or filtered or c["nodecls"] != "plain" or kind in ("apply", "in", "inedge", "anc") or kind in AGE)
+    ctx.case([c["tree"], kind, start, via, c["excl"], c["incl"], c["acc"], c["fstyle"], c["nodecls"], c["alt"], c["prior"],
+              c["ages"] if kind in AGE else None], nontrivial, sample=c, kind=kind)
+    if c["prior"]:
+        ctx.count("after_earlier_traversals")
+    if c["nodecls"] != "plain":
+        ctx.count("falsy_node_class")
+    if filtered and c["fstyle"] != "bool":
+        ctx.count("filter_" + c["fstyle"])
+    if via == "subtree" and start != 0:
+        ctx.count("tree_on_spliced_subtree")
+    desc = "desc" in kind
+    if want == "undefined":
+        # in-order on a subtree that is not strictly binary: the statement defines nothing; refusing (any exception) is fine
+        ctx.count("inorder_undefined_" + ("refused" if refused else "answered"))
+        canon = "refused" if refused else None
+    elif refused is not None:
+        ctx.fail("exception", "%s: raised %s where the statement defines the answer [%s]" % (where, refused, fmt(want)), c)
+        canon = "raised"
+    elif kind in AGE:
+        ok_set = sorted(map(str, got)) == sorted(map(str, want))
+        if not ok_set:
+            ctx.fail(classify(c, got, want_nofilter, "age-order"),
+                     "%s: yielded [%s]; the nodes that pass are [%s], each must appear exactly once" % (where, fmt(got), fmt(want)), c)
+        elif not monotone_age(got, ages, desc):
+            ctx.fail("age-order", "%s: yielded [%s] with ages [%s]: not monotone" % (
+                where, fmt(got), " ".join(str(ages[i]) for i in got)), c)
+        canon = age_canon(got, ages)
+    else:
+        if fmt(got) != fmt(want):
+            ctx.fail(classify(c, got, want_nofilter, "order"),
+                     "%s: visited [%s], defining order is [%s]" % (where, fmt(got), fmt(want)), c)
+        canon = fmt(got)
+    if canon is None:
+        return
+    acc = c["acc"]
+    filt = "*" if (acc is None or kind in UNFILTERED) else ("-" if not acc else ",".join(str(i) for i in sorted(acc)))
+    line = "iter %s %d %d %d %d %s %s %s" % (
+        kind, start, 1 if (via == "subtree" and start != 0) else 0, 1 if c["excl"] else 0, 1 if c["incl"] else 0, filt,
+        ",".join(tu.frac(a) for a in ages) if kind in AGE else "-", " ".join(c["tree"]))
+    pending.append((line, c, canon))
 
 
-def one_case(ctx, dendropy, toks, kind, start, excl, acc, ages, via_tree, pending):
-    tree, ids = tu.tree_from_tokens(dendropy, toks)
-    case = {"tree": toks, "kind": kind, "start": start, "excl": excl, "acc": None if acc is None else sorted(acc),
-            "ages": [str(a) for a in ages], "via_tree": via_tree}
-    with time_limit(20):
-        got = impl(kind, tree, ids, start, excl, acc, ages, via_tree)
-    want = oracle(kind, tree, ids, start, excl, acc, ages)
-    nontrivial = start != 0 or acc is not None or kind in ("apply", "in") or kind.startswith("age")
-    ctx.case([toks, kind, start, excl, case["acc"], case["ages"] if kind.startswith("age") else None], nontrivial,
-             sample=case, kind=kind)
-    if fmt(got) != fmt(want):
-        ctx.fail("order", "%s from node %d (filter %s): visited [%s], defining order is [%s]" % (
-            kind, start, case["acc"], fmt(got), fmt(want)), case)
-    if kind in ("level", "leaf", "in") and via_tree:
-        for name, r, base in edge_variants(tree, ids, start, acc):
-            if base == kind and fmt(r) != fmt(want):
-                ctx.fail("order", "%s_edge_iter: visited [%s], node counterpart yields [%s]" % (name, fmt(r), fmt(want)), case)
-    filt = "*" if acc is None else ("-" if not acc else ",".join(str(i) for i in sorted(acc)))
-    line = "iter %s %d %d %s %s %s" % (kind, start, 1 if excl else 0, filt,
-                                       ",".join(tu.frac(a) for a in ages) if kind.startswith("age") else "-", " ".join(toks))
-    pending.append((line, case, fmt(got)))
+def classify(c, got, unfiltered, default):
+    """give the two documented truthiness defects their own failure kinds (exactly those, nothing else on the same input):
+    falsy-node-dropped: no filter given, node class falsy, and the answer is the defining order minus every falsy node/edge
+                        (all of them are falsy, so: nothing is yielded / len is 0);
+    falsy-filter-ignored: the filter object is falsy and the answer is exactly the unfiltered defining order"""
+    kind = c["kind"]
+    filtered = c["acc"] is not None and kind not in UNFILTERED
+    if c["nodecls"] != "plain" and not filtered and kind in (
+            "preint", "postint", "leaf", "len", "leafnodes", "internalnodes", "leafedges", "internaledges", "leafedge",
+            "preintedge", "postintedge"):
+        if (kind == "len" and got == [0]) or (kind != "len" and got == []):
+            return "falsy-node-dropped"
+    if filtered and c["fstyle"] == "falsyfn" and kind in ("preint", "postint", "leaf", "preintedge", "postintedge"):
+        if fmt(got) == fmt(unfiltered) or (c["nodecls"] != "plain" and got == []):   # second: both defects composed
+            return "falsy-filter-ignored"
+    return default
 
 
 def flush(ctx, pending):
     outs = ctx.ask([p[0] for p in pending])
-    for (line, case, got), m in zip(pending, outs):
+    for (line, c, canon), m in zip(pending, outs):
         if m is None:
             continue
         ctx.compared()
-        if m.strip() != got.strip():
-            ctx.disagree("iter " + case["kind"], case, got, m)
+        m = m.strip()
+        if c["kind"] in AGE and m and not m.startswith("bad"):
+            m = age_canon([int(x) for x in m.split()], [Fraction(a) for a in c["ages"]])
+        if m == "TypeError":
+            m = "refused"
+        if m != canon.strip():
+            ctx.disagree("iter " + c["kind"], c, canon, m)
     del pending[:]
 
 
-def gen_case(ctx, dendropy, rng, max_leaves):
+# ---------------------------------------------------------------- generation
+def gen_toks(dendropy, rng, max_leaves):
     r = rng.random()
     n = rng.randint(1, max_leaves)
     if r < 0.12:
@@ -215,58 +504,87 @@ def gen_case(ctx, dendropy, rng, max_leaves):
         shape = tu.rand_shape(rng, n, p_poly=0.0, p_unary=0.0)   # binary: in-order applies
     else:
         shape = tu.rand_shape(rng, n, p_poly=rng.choice([0.1, 0.3, 0.6]), p_unary=rng.choice([0.0, 0.1, 0.3]))
+    return shape_toks(dendropy, shape, n)
+
+
+def shape_toks(dendropy, shape, n):
     tns = tu.make_namespace(dendropy, n)
     tree = tu.build_tree(dendropy, shape, tns, list(tns), None, None)
     toks, ids = tu.encode_tree(tree)
     return toks, len(ids)
 
 
+def make_case(rng, toks, n, kind, start=None, via=None, max_age=6):
+    if via is None:
+        if kind in TREE_ONLY:
+            via = "tree" if rng.random() < 0.5 else "subtree"
+        elif kind in NODE_ONLY:
+            via = "node"
+        else:
+            via = rng.choice(["node", "node", "tree", "subtree"])
+    if start is None:
+        start = 0 if via == "tree" else rng.randrange(n)
+    if via == "tree":
+        start = 0
+    acc = None if rng.random() < 0.4 else sorted(i for i in range(n) if rng.random() < rng.choice([0.2, 0.5, 0.8]))
+    prior = []
+    if rng.random() < 0.35:
+        pool = BOTH + (NODE_ONLY if via == "node" else TREE_ONLY)
+        for _ in range(rng.choice([1, 1, 2])):
+            prior.append([rng.choice(pool) if rng.random() < 0.7 else rng.choice(["level", "level", "post", "pre", "leaf"]),
+                          None if rng.random() < 0.5 else rng.randrange(0, 4)])
+    r = rng.random()
+    return {"prior": prior, "tree": toks, "kind": kind, "start": start, "via": via, "excl": rng.random() < 0.5, "incl": rng.random() < 0.5,
+            "acc": acc, "fstyle": "bool" if r < 0.4 else ("mixed" if r < 0.85 else "falsyfn"), "fsalt": rng.randrange(8),
+            "nodecls": "plain" if rng.random() < 0.6 else rng.choice(["nobool", "nolen"]), "alt": rng.random() < 0.3,
+            "ages": [str(Fraction(rng.randint(0, max_age), 2)) for _ in range(n)]}
+
+
 def run(ctx):
     dendropy = __import__("dendropy")
     rng = ctx.rng
-    ctx.set_budget(45, 600)
+    ctx.set_budget(40, 420)
     pending = []
-    ncases = ctx.pick(2500, 60000)
+    ncases = ctx.pick(6000, 120000)
     max_leaves = ctx.pick(12, 40)
     for k in range(ncases):
         if ctx.out_of_time():
             break
-        toks, n = gen_case(ctx, dendropy, rng, max_leaves if rng.random() < 0.9 else 3)
-        kind = rng.choice(KINDS)
-        via_tree = kind in TREE_ONLY or rng.random() < 0.35
-        start = 0 if via_tree else rng.randrange(n)
-        acc = None if rng.random() < 0.4 else {i for i in range(n) if rng.random() < rng.choice([0.2, 0.5, 0.8])}
-        excl = rng.random() < 0.5
-        ages = [tu.Fraction(rng.randint(0, 6), 2) for _ in range(n)]
-        one_case(ctx, dendropy, toks, kind, start, excl, acc, ages, via_tree, pending)
+        toks, n = gen_toks(dendropy, rng, max_leaves if rng.random() < 0.9 else 3)
+        one_case(ctx, dendropy, make_case(rng, toks, n, rng.choice(KINDS)), pending)
         if len(pending) >= 500:
             flush(ctx, pending)
     flush(ctx, pending)
     if ctx.tier == "thorough":
-        # exhaustive: every shape <= 6 leaves (no unary nodes) and unary-decorated variants, every start, every kind, no filter + one random filter
+        # exhaustive: every shape <= 6 leaves (no unary nodes) x kind x start, without a filter and with one random filter
+        ctx.budget_s = (ctx.budget_s or 420) + 240
         count = 0
         for n in range(1, 7):
             for shape in tu.all_shapes(n):
-                tns = tu.make_namespace(dendropy, n)
-                tree = tu.build_tree(dendropy, shape, tns, list(tns), None, None)
-                toks, ids = tu.encode_tree(tree)
+                if ctx.out_of_time():
+                    break
+                toks, nn = shape_toks(dendropy, shape, n)
                 for kind in KINDS:
-                    for start in ([0] if kind in TREE_ONLY else range(len(ids))):
-                        ages = [tu.Fraction(rng.randint(0, 3), 2) for _ in range(len(ids))]
-                        for acc in (None, {i for i in range(len(ids)) if rng.random() < 0.5}):
-                            one_case(ctx, dendropy, toks, kind, start, rng.random() < 0.5, acc, ages,
-                                     kind in TREE_ONLY or (start == 0 and rng.random() < 0.5), pending)
+                    for start in range(nn):
+                        for with_filter in (False, True):
+                            via = ("tree" if start == 0 else "subtree") if kind in TREE_ONLY else (
+                                "node" if (kind in NODE_ONLY or start != 0 or rng.random() < 0.5) else "tree")
+                            c = make_case(rng, toks, nn, kind, start=start, via=via, max_age=3)
+                            if not with_filter:
+                                c["acc"] = None
+                            elif c["acc"] is None:
+                                c["acc"] = sorted(i for i in range(nn) if rng.random() < 0.5)
+                            one_case(ctx, dendropy, c, pending)
                             count += 1
                 if len(pending) >= 2000:
                     flush(ctx, pending)
         flush(ctx, pending)
-        ctx.extra["exhaustive_small_scope"] = "all %d (shape<=6 leaves, kind, start) combinations, each without and with one random filter" % count
+        ctx.extra["exhaustive_small_scope"] = ("%d (shape<=6 leaves, kind, start) combinations, each without and with one "
+                                               "random filter" % count)
 
 
 def replay(ctx, rec):
     dendropy = __import__("dendropy")
-    c = rec["replay"]
     pending = []
-    one_case(ctx, dendropy, c["tree"], c["kind"], c["start"], c["excl"], None if c["acc"] is None else set(c["acc"]),
-             [tu.Fraction(a) for a in c["ages"]], c["via_tree"], pending)
+    one_case(ctx, dendropy, rec["replay"], pending)
     flush(ctx, pending)
